@@ -794,11 +794,20 @@ class Model(Object):
                     obj_coef = reaction.objective_coefficient
 
                     if obj_coef != 0:
+                        # Look the objective up when undoing: it may have been
+                        # replaced by another objective object in between.
                         context(
                             partial(
-                                self.solver.objective.set_linear_coefficients,
+                                self._set_objective_coefficients,
                                 {forward: obj_coef, reverse: -obj_coef},
                             )
+                        )
+                        # Drop the reaction from the objective explicitly: the
+                        # solver interface may otherwise keep its variables in
+                        # a cached objective expression, and a later objective
+                        # change in the same context would re-add them on exit.
+                        self.solver.objective.set_linear_coefficients(
+                            {forward: 0, reverse: 0}
                         )
 
                     context(partial(self._populate_solver, [reaction]))
@@ -832,6 +841,10 @@ class Model(Object):
                 associated_groups = self.get_associated_groups(reaction)
                 for group in associated_groups:
                     group.remove_members(reaction)
+
+    def _set_objective_coefficients(self, coefficients: Dict) -> None:
+        """Set linear coefficients on the current solver objective."""
+        self.solver.objective.set_linear_coefficients(coefficients)
 
     def add_groups(self, group_list: Union[str, Group, List[Group]]) -> None:
         """Add groups to the model.
